@@ -459,12 +459,129 @@ fn judge_authenticate(run: &mut Run, p: &Prepared, c: &AuthenticatedPublicKeyCre
     d
 }
 
+/// application parameter (32 bytes) of an abstract application; the passkey's RP ID is its base64url form
+fn app_param(run: &mut Run, name: &str) -> [u8; 32] {
+    let sh = run.sh.clone();
+    let mut s = sh.lock().unwrap();
+    if let Some((_, v)) = s.dict.rp.iter().find(|(n, _)| n == name) {
+        return rp::b64url_decode(v).unwrap().try_into().unwrap();
+    }
+    let mut a = [0u8; 32];
+    run.rng.fill_bytes(&mut a);
+    s.dict.rp.push((name.to_string(), rp::b64url(&a)));
+    a
+}
+
+/// key handle bytes of an abstract handle "kN" (N = its length)
+fn handle_bytes(run: &mut Run, name: &str) -> Vec<u8> {
+    let sh = run.sh.clone();
+    let mut s = sh.lock().unwrap();
+    if let Some((_, b)) = s.dict.cred.iter().find(|(n, _)| n == name) {
+        return b.clone();
+    }
+    let n: usize = name[1..].parse().unwrap();
+    let mut b = vec![0u8; n];
+    run.rng.fill_bytes(&mut b);
+    s.dict.cred.push((name.to_string(), b.clone()));
+    b
+}
+
+fn u2f(run: &mut Run, op: &str, req: &Value) -> Value {
+    use passkey_authenticator::U2fApi;
+    use passkey_types::ctap2::Flags;
+    use passkey_types::u2f::{AuthenticationParameter, AuthenticationRequest, RegisterRequest};
+    let app = app_param(run, req["rp"].as_str().unwrap());
+    let handle = handle_bytes(run, req["handle"].as_str().unwrap());
+    let mut challenge = [0u8; 32];
+    run.rng.fill_bytes(&mut challenge);
+    let mut client = run.client.take().unwrap();
+    let sh = run.sh.clone();
+    let ev = if op == "reg" {
+        let out = util::catch(|| drive(U2fApi::register(client.authenticator_mut(), RegisterRequest { challenge, application: app }, &handle), &sh));
+        run.client = Some(client);
+        match out {
+            Err(m) => json!({"ev": "Crash", "d": {"what": m}}),
+            Ok(Outcome::Hung) => json!({"ev": "Crash", "d": {"what": "hung"}}),
+            Ok(Outcome::Cancelled(_)) => json!({"ev": "Cancel", "d": {"after": sh.lock().unwrap().counted}}),
+            Ok(Outcome::Done(Err(e))) => json!({"ev": "End", "d": Run::err_end(u8::from(e))}),
+            Ok(Outcome::Done(Ok(r))) => {
+                let mut d = Run::end_default();
+                d["ok"] = json!(true);
+                d["ctr"] = ctr_json(Some(0));
+                d["rphash"] = json!(req["rp"]);
+                let name = run.sh.lock().unwrap().dict.cred_name(&r.key_handle);
+                d["cred"] = json!(name);
+                let point = rp::p256_point(&r.public_key.x, &r.public_key.y);
+                // 0x00 || application || challenge || key handle || public key
+                let mut msg = vec![0u8];
+                msg.extend_from_slice(&app);
+                msg.extend_from_slice(&challenge);
+                msg.extend_from_slice(&r.key_handle);
+                msg.extend(r.public_key.encode());
+                let ok = point.as_ref().map(|p| rp::verify_der(p, &msg, &r.signature) || rp::verify_raw(p, &msg, &r.signature)).unwrap_or(false);
+                d["sigkey"] = json!(if ok { name.clone() } else { "none".to_string() });
+                if let Some(p) = &point {
+                    let mut s = run.sh.lock().unwrap();
+                    s.dict.pubkeys.retain(|(n, _)| *n != name);
+                    s.dict.pubkeys.push((name.clone(), p.clone()));
+                }
+                if let Some(st) = run.stored(&r.key_handle) {
+                    d["stored"] = cred_json(&run.sh.lock().unwrap().dict, &st);
+                    d["keymatch"] = json!(crate::cerrun::private_matches(&st, point.as_deref()));
+                }
+                json!({"ev": "End", "d": d})
+            }
+        }
+    } else {
+        let counter = ctr_from(&req["counter"]).unwrap_or(0);
+        let mut flags = Flags::empty();
+        for f in req["presence"].as_array().unwrap() {
+            match f.as_str().unwrap() {
+                "UP" => flags |= Flags::UP,
+                "UV" => flags |= Flags::UV,
+                _ => {}
+            }
+        }
+        let request = AuthenticationRequest { parameter: AuthenticationParameter::EnforceUserPresence, challenge, application: app, key_handle: handle.clone() };
+        let out = util::catch(|| drive(U2fApi::authenticate(client.authenticator(), request, counter, flags), &sh));
+        run.client = Some(client);
+        match out {
+            Err(m) => json!({"ev": "Crash", "d": {"what": m}}),
+            Ok(Outcome::Hung) => json!({"ev": "Crash", "d": {"what": "hung"}}),
+            Ok(Outcome::Cancelled(_)) => json!({"ev": "Cancel", "d": {"after": sh.lock().unwrap().counted}}),
+            Ok(Outcome::Done(Err(e))) => json!({"ev": "End", "d": Run::err_end(u8::from(e))}),
+            Ok(Outcome::Done(Ok(r))) => {
+                let mut d = Run::end_default();
+                d["ok"] = json!(true);
+                d["ctr"] = ctr_json(Some(r.counter));
+                d["flags"] = json!(rp::flag_names(r.user_presence.into()));
+                d["rphash"] = json!(req["rp"]);
+                // application || presence byte || counter (big endian) || challenge
+                let mut msg = app.to_vec();
+                msg.push(r.user_presence.into());
+                msg.extend_from_slice(&r.counter.to_be_bytes());
+                msg.extend_from_slice(&challenge);
+                let s = run.sh.lock().unwrap();
+                d["cred"] = json!(s.dict.cred_name(&handle));
+                d["sigkey"] = json!(s.dict.pubkeys.iter().find(|(_, pk)| rp::verify_der(pk, &msg, &r.signature)).map(|(n, _)| n.clone()).unwrap_or_else(|| "none".to_string()));
+                drop(s);
+                if let Some(st) = run.stored(&handle) {
+                    d["stored"] = cred_json(&run.sh.lock().unwrap().dict, &st);
+                }
+                json!({"ev": "End", "d": d})
+            }
+        }
+    };
+    ev
+}
+
 pub fn ceremony(run: &mut Run, c: &Value) {
     let api = c["api"].as_str().unwrap();
     let op = c["op"].as_str().unwrap();
     let ev = match (api, op) {
         ("client", "mc") => register(run, &c["req"]),
         ("client", "ga") => authenticate(run, &c["req"]),
+        ("u2f", op) => u2f(run, op, &c["req"]),
         _ => {
             eprintln!("pkverif: api {api}/{op} not implemented");
             std::process::exit(2);
